@@ -47,8 +47,11 @@ BUILTINS = {
     "datetime": datetime.datetime, "date": datetime.date, "time": datetime.time,
     "timedelta": datetime.timedelta, "decimal": decimal.Decimal,
 }
+# constrained types the library ships (with hooks of their own), looked up when a world is built
+SHIPPED = {"timestamp": "Timestamp", "year": "Year", "month": "Month", "email": "EmailStr"}
 BENIGN = {"int": 3, "float": 1.5, "str": "x", "bool": True, "bytes": b"ab", "datetime": "2020-01-02 03:04:05",
-          "date": "2020-01-02", "time": "03:04:05", "timedelta": 12, "decimal": "1.5"}
+          "date": "2020-01-02", "time": "03:04:05", "timedelta": 12, "decimal": "1.5",
+          "timestamp": 12, "year": 2020, "month": 3, "email": "a.b@c.de"}
 
 
 class ReprBomb:
@@ -204,7 +207,7 @@ def hostile_pool():
 
 def _hostile_more():
     # (appended: the indices of the older entries are part of recorded plans)
-    return [Endless(), [Endless()]]
+    return [Endless(), [Endless()], datetime.datetime.min, datetime.datetime.max, datetime.date.min, datetime.timedelta.max, datetime.timedelta.min]
 
 
 def _hostile_wrapped():
@@ -247,7 +250,7 @@ def gen_scalar(rng):
         return ["union", ["hook"], ["leaf2"]]
     if r < 0.93:
         return ["con", rng.choice(CON_NAMES)]
-    return ["b", rng.choice(sorted(BUILTINS))]
+    return ["b", rng.choice(sorted(BUILTINS) + sorted(SHIPPED))]
 
 
 def gen_type(rng, depth, allow_dc=True):
@@ -290,6 +293,9 @@ def gen_value(rng, t, pool, pos, depth, hostile_p):
         return {"$r": pid}
     if k == "b":
         if rng.random() < hostile_p:
+            if t[1] in SHIPPED and rng.random() < 0.4:
+                # (the values the hooks of the shipped types look at: dates, times and durations at their limits)
+                return {"$b": [t[1], N_HOSTILE - rng.choice([1, 2, 3, 4, 5])]}
             return {"$b": [t[1], rng.randrange(N_HOSTILE)]}
         return {"$b": [t[1], -1]}
     if k == "con":
@@ -359,7 +365,10 @@ def generate(rng, tier):
         t = gen_type(rng, rng.choice([0, 0, 1, 1, 2, 2, 3]))     # 0: a constrained type / logical combination at the top
         if rng.random() < 0.15:
             t = ["con", rng.choice(CON_NAMES)]
-        while t[0] in ("leaf", "leaf2", "keyleaf", "b", "hook"):
+        if rng.random() < 0.12:
+            t = ["b", rng.choice(sorted(SHIPPED))]      # a constrained type the library ships, called directly
+            hostile_p = 0.9
+        while t[0] in ("leaf", "leaf2", "keyleaf", "b", "hook") and not (t[0] == "b" and t[1] in SHIPPED):
             # (nor is a bare Rule whose own pre/post_validate override raises: that is the caller's code running at the top)
             # a plain registered type handed to type_transform is not one of the statement's subjects
             # ("constrained and logical types, data classes and decorated functions")
@@ -409,6 +418,13 @@ def generate(rng, tier):
             plan["forbid_extras"] = True
             for j in range(rng.choice([1, 2])):
                 plan["extras"]["x%d" % j] = rng.choice([{"$bomb": 1}, gen_value(rng, ["leaf"], pool, pos, 1, 0), {"$b": ["int", rng.randrange(N_HOSTILE)]}])
+        if api in ("schema", "dataclass") and rng.random() < 0.08:
+            # a key of the data may have any name, also that of a parameter of the generated constructor
+            special = rng.choice(["_obj_self", "_d", "self", "cls", "args", "kwargs"])
+            if "x0" in plan["extras"]:
+                plan["extras"][special] = plan["extras"].pop("x0")      # (typed or forbidden like the others)
+            else:
+                plan["extras"][special] = rng.choice([1, {"a": 5}, "note", None])
         # the mapping handed to __from__ is iterated by the library itself: a legitimate fault site at the top level
         if api in ("schema", "dataclass") and plan["eager"]:
             plan["top_fd"] = rng.random() < 0.3
@@ -511,6 +527,9 @@ def build_type(t, env):
     if k == "con":
         return con_type(t[1])
     if k == "b":
+        if t[1] in SHIPPED:
+            from utype import types as shipped
+            return getattr(shipped, SHIPPED[t[1]])
         return BUILTINS[t[1]]
     if k == "and":
         from utype.parser.rule import LogicalType
@@ -777,6 +796,10 @@ def execute(plan):
 
     # O4: fault-free control with benign scalars must succeed
     out, steps, body, leaked = _attempt(plan, env, hostile=False, budget=budget)
+    if out[0] == "raw":
+        # no fault, no hostile value, and an exception that is no ParseError: the claim itself
+        res.violate(f"C04|O1|{plan['api']}|control|{out[1]}", f"the fault-free input with benign values raised {out[1]}: {out[2]}")
+        return res
     if out[0] != "ok":
         if _control_may_reject(plan):
             res.ev("control", "rejects-structurally")
